@@ -232,6 +232,17 @@ func AtomUnits() []*Unit {
 			u.NoGV2 = true
 			us = append(us, u)
 		}
+		{
+			// every name protoc-gen-gogo renames but protogen does not: each one needs its own specialname option
+			b := NewUnit(p+"namesgogo", syntax, "names-gogo").Atom("fields-named-like-gogo-methods")
+			m := b.Msg("NamesGogo")
+			m.F("size", 1, Int32, Optional).F("proto_size", 2, Int64, Optional).F("equal", 3, Bool, Optional)
+			m.F("go_string", 4, String, Optional).F("verbose_equal", 5, Bytes, Optional).F("marshal_to", 6, Uint32, Optional)
+			u := b.Unit()
+			u.SpecialNames = []string{"Size", "ProtoSize", "Equal", "GoString", "VerboseEqual", "MarshalTo"}
+			u.NoGV2 = true
+			us = append(us, u)
+		}
 		// ---- messages whose short names are equal (filepermessage output names)
 		{
 			b := NewUnit(p+"samename", syntax, "samename").Atom("equal-short-names")
